@@ -488,45 +488,7 @@ func c16LateLoad(c *ctx, r *rng) error {
 // applied to another's.  Native oracle.
 func c16Twins(c *ctx, r *rng) error {
 	res := c.res
-	mk := []func(t string, n int) any{
-		func(t string, n int) any {
-			type Page struct {
-				Title string
-				N     int
-			}
-			return Page{t, n}
-		},
-		func(t string, n int) any {
-			type Page struct {
-				N     int
-				Title string
-			}
-			return Page{n, t}
-		},
-		func(t string, n int) any {
-			type Page struct {
-				X     bool
-				N     int64
-				Y     []int
-				Title string
-			}
-			return &Page{N: int64(n), Title: t}
-		},
-		func(t string, n int) any { return map[string]any{"Title": t, "N": n} },
-		func(t string, n int) any {
-			type inner struct{ Title string }
-			type Page struct {
-				N int
-				inner
-			}
-			return Page{n, inner{t}}
-		},
-	}
-	tpls := []string{
-		`<h1 :text="${p.Title}">o</h1><p :text="${p.N}">o</p>`,
-		`<ul><li :range="_, q : ps" :title="${q.Title}" :text="${q.N + 1}">o</li></ul>`,
-		`<b :with="w := ${p}" :text="${w.Title}${w.N}">o</b>`,
-	}
+	mk, tpls := twinMk, twinTpls
 	n := c.n(40, 1500)
 	for i := 0; i < n; i++ {
 		ti := i % len(tpls)
@@ -548,15 +510,7 @@ func c16Twins(c *ctx, r *rng) error {
 			title, num := fmt.Sprintf("t%d", r.n(5)), r.n(90)
 			v := mk[k](title, num)
 			data := map[string]any{"p": v, "ps": []any{v, mk[r.n(len(mk))](title+"x", num+1)}}
-			want := ""
-			switch ti {
-			case 0:
-				want = fmt.Sprintf("<h1>%s</h1><p>%d</p>", title, num)
-			case 1:
-				want = fmt.Sprintf(`<ul><li title="%s">%d</li><li title="%sx">%d</li></ul>`, title, num+1, title, num+2)
-			case 2:
-				want = fmt.Sprintf("<b>%s%d</b>", title, num)
-			}
+			want := twinWant(ti, title, num)
 			hist = append(hist, J{"type": k, "title": title, "n": num})
 			t := shared
 			where := "one template object"
@@ -585,4 +539,57 @@ func c16Twins(c *ctx, r *rng) error {
 		res.eval(fmt.Sprintf("twins|%d|%s", ti, jstr(hist)), true, J{"tpl": tpls[ti], "history": hist})
 	}
 	return nil
+}
+
+// twin data types: distinct Go types that print the same name ("main.Page") with the same-named fields at different
+// positions / of different types, a pointer, an embedded struct, and a map — shared by the C16 histories and the C15 race mode
+var twinMk = []func(t string, n int) any{
+	func(t string, n int) any {
+		type Page struct {
+			Title string
+			N     int
+		}
+		return Page{t, n}
+	},
+	func(t string, n int) any {
+		type Page struct {
+			N     int
+			Title string
+		}
+		return Page{n, t}
+	},
+	func(t string, n int) any {
+		type Page struct {
+			X     bool
+			N     int64
+			Y     []int
+			Title string
+		}
+		return &Page{N: int64(n), Title: t}
+	},
+	func(t string, n int) any { return map[string]any{"Title": t, "N": n} },
+	func(t string, n int) any {
+		type inner struct{ Title string }
+		type Page struct {
+			N int
+			inner
+		}
+		return Page{n, inner{t}}
+	},
+}
+var twinTpls = []string{
+	`<h1 :text="${p.Title}">o</h1><p :text="${p.N}">o</p>`,
+	`<ul><li :range="_, q : ps" :title="${q.Title}" :text="${q.N + 1}">o</li></ul>`,
+	`<b :with="w := ${p}" :text="${w.Title}${w.N}">o</b>`,
+}
+
+// twinWant is the output of twinTpls[ti] for data {"p": v, "ps": [v, v'(title+"x", num+1)]}
+func twinWant(ti int, title string, num int) string {
+	switch ti {
+	case 0:
+		return fmt.Sprintf("<h1>%s</h1><p>%d</p>", title, num)
+	case 1:
+		return fmt.Sprintf(`<ul><li title="%s">%d</li><li title="%sx">%d</li></ul>`, title, num+1, title, num+2)
+	}
+	return fmt.Sprintf("<b>%s%d</b>", title, num)
 }
